@@ -7,6 +7,17 @@ checks = {
    text="Parse is run on ~22k (quick) / ~1.6M (thorough) generated inputs - random bytes, 18 targeted damage classes (header length, limit, bucket heads, links incl. self/2-/long cycles through plain and stack-named records, name lengths, truncation, metadata) applied to valid files, and well-formed files from an independent writer and from the library's own writer - each under an instrumented loop-tick budget (deterministic stand-in for termination) and a panic/fault guard; every file the strict independent decoder accepts must be decoded to exactly the same metadata and name->value map (stack names expanded). Held on the inputs run, nothing more.",
    note="Trusts the reference decoder/writer in /verif/ref (written from the documented layout) and the tick budget 64*len+1e6 as the meaning of 'terminates'. ≤3-byte over-reads by unsafe loads are not judged.", ref="§2 C06"),
 }
+checks.update({
+ "C03": dict(cat="exploration", tech="runtime monitoring under a token-passing schedule fuzzer: online conservation invariant at every scheduling point + quarantining unmap (mprotect) as a stale-mapping sanitizer",
+   text="The real Add/rotate1/lookup code runs as 2-6 virtual threads under a token-passing scheduler with a scheduling point at every atomic operation, lock acquisition and fs call (instrumented from the current sources). 4k (quick) / 160k (thorough) schedules: systematic 'park thread at its k-th point while others complete' for all k on ten core programs (Add vs first open / growth remap / rotation / Read), double parks, PCT, sticky and random schedules of random programs incl. saturating amounts. A monitor holding the token checks at every step persisted(sum over files, own read-only mapping)+pending <= begun and cell monotonicity; at quiescence equality, nothing pending when a file is open, state word released; unmapped regions are quarantined with PROT_NONE so stale accesses fault and are attributed. Evidence lists distinct traces and the hazard classes seen (swap while reader/lock held, pending extra at swap, half-registered counter at swap).",
+   note="Sequential consistency between scheduling points (no weak-memory effects); 'waits forever' = no return in 60000 steps with all other threads finished. Two open known findings (F1, F11) are reported as KNOWN-FINDING by exact signature.", ref="§2 C03, §4"),
+ "C04": dict(cat="exploration", tech="runtime monitoring under a token-passing schedule fuzzer with kill points: strict independent decoder run on the shared file after every step",
+   text="2-4 emulated processes (own fd + MAP_SHARED mapping each, one virtual thread per process) create/increment same-name, bucket-colliding, page-filling (exact fit to the page end) and file-extending counters through the real code; kills park a process for ever at its k-th scheduling point (all k), plus park/PCT/sticky/random schedules. After every step the monitor decodes the file through its own mapping with the strict reference decoder (alignment, bounds, acyclic chains, bucket=hash, unique names, no overlap, reserved page tail, monotone limit) and checks values monotone and <= begun; at quiescence completed <= value <= begun and every survivor finished and persisted everything.",
+   note="Processes are emulated inside one OS process (same page-cache pages, real atomics); kill -9 = thread never scheduled again. Sequential consistency between points.", ref="§2 C04"),
+ "C10": dict(cat="exploration", tech="runtime monitoring of produced files: strict independent decoder as oracle after every operation; exhaustive sweep of the pure placement function over a page period",
+   text="Random create/add/reopen/extend sequences on 1-3 writer handles (names 1..4096 arbitrary bytes, values incl. 2^64-1, metadata up to and over the cap, growth over many pages): after every operation the raw bytes must satisfy the strict independent decoder and equal the model; place(limit,len) is swept over every 32-aligned limit of a page period x every name length 1..4096 against the layout rule; files from the independent writer must be opened, read and extended by the library; concurrent writers are covered by re-running the C04 schedule harness.",
+   note="Trusts /verif/ref (reader+writer written from the documented layout). The placement sweep is complete only for the stated sub-domain (page indices listed in the evidence).", ref="§2 C10"),
+})
 todo = {
 }
 names = ["C%02d" % i for i in range(1, 20)]
